@@ -201,6 +201,12 @@ def run(ctx) -> None:
         ctx.check("R4", f in kws and unparse(kws[f]) == f, f"Config({f}={f})", f"config._parse_config: Config.{f} is filled from another value", unparse(kws.get(f, ast.Constant(None))), loc=pcf.loc(ctor[0]))
     # strings are stripped identically for both formats (quotes in INI values)
     for k in ("commit_message", "tag_message", "current_version", "version_pattern"):
+        def _chars(e: ast.AST) -> T.Optional[str]:
+            try:
+                v = prog.fold(pcf.module, e)
+            except AnalysisError:
+                return None
+            return v if isinstance(v, str) else None
         ok = any(isinstance(c, ast.Call) and isinstance(c.func, ast.Attribute) and c.func.attr == "strip" and unparse(c.func.value) == k and c.args
-                 and const_str(c.args[0]) is not None and {"'", '"'} <= set(const_str(c.args[0])) for c in ast.walk(pcf.node))
+                 and _chars(c.args[0]) is not None and {"'", '"'} <= set(_chars(c.args[0])) for c in ast.walk(pcf.node))
         ctx.check("R4", ok, f"_parse_config strips quotes/spaces from {k} (INI values keep their quotes)", f"config._parse_config: {k} is not quote-stripped (INI and TOML would differ)", "", loc=pcf.loc())
